@@ -236,6 +236,7 @@ theorem Rx.all_trunc (r : Rx) (haf : r.anchorFree = true) : Trunc r.all := by
     obtain ⟨t, ht, hr⟩ := ih haf s s1 h1 c hc d p n cs
     exact ⟨_, List.mem_map.mpr ⟨t, ht, rfl⟩, hr⟩
   | ahead r _ => simp [Rx.anchorFree] at haf
+  | nahead r _ => simp [Rx.anchorFree] at haf
   | behind cs0 => simp [Rx.anchorFree] at haf
   | wordb w => simp [Rx.anchorFree] at haf
   | eos => simp [Rx.anchorFree] at haf
